@@ -1,0 +1,71 @@
+//go:build verif
+
+// Contracts for the verification harness in /verif (comment-only; no declarations).
+package hooks
+
+//@ entry-invariant [C19,C13] *eTagEntry: v != nil
+
+//@ func webhookExecutorPlain.isStatusSupported(w, request, response) (r)
+//@   requires response != nil
+//@   safety C13
+//@   ensures [C19] r == (response.StatusCode == 200)
+
+//@ func webhookExecutorEtag.isStatusSupported(w, request, response) (r)
+//@   requires response != nil && request != nil
+//@   safety C13
+//@   ensures [C19] r == (response.StatusCode == 200 || ((response.StatusCode == 304 || response.StatusCode == 412) && request.Header.Get("If-None-Match") != ""))
+
+//@ func webhookExecutorPlain.adjustResponse(w, request, webhookRequest, responseBody, response) (body, err)
+//@   safety C13
+//@   ensures [C19] err == nil && body == responseBody
+
+//@ func webhookExecutorEtag.adjustResponse(w, request, webhookRequest, responseBody, response) (body, err)
+//@   requires w != nil && w.etagCache != nil && w.etagCache.cache != nil && request != nil && response != nil && webhookRequest != nil && webhookRequest.GetRootObject() != nil
+//@   safety C13
+//@   bind call Cache.Get: entry, exists
+//@   let notModified = request.Header.Get("If-None-Match") != "" && (response.StatusCode == 304 || response.StatusCode == 412)
+//@   ensures [C19] notModified && err == nil ==> exists && body == entry.Response && entry.Etag == request.Header.Get("If-None-Match")
+//@   ensures [C19] notModified && !exists ==> err != nil
+//@   ensures [C19] !notModified ==> err == nil && body == responseBody
+//@   at Set(c, k, v) [C19]: !notModified && v != nil && v.Etag == response.Header.Get("ETag") && v.Etag != "" && v.Response == responseBody
+
+//@ func webhookExecutor.Call(w, webhookRequest, webhookResponse) (err)
+//@   requires w != nil && w.client != nil && w.webhookAbstract != nil && w.now != nil
+//@   safety C13
+//@   bind call Do: httpResp, doErr
+//@   bind call ReadAll: rawBody, readErr
+//@   bind call isStatusSupported: supported
+//@   bind call adjustResponse: adjusted, adjErr
+//@   bind call UnmarshalStrict: strictErrs, decErr
+//@   bind call Atoi: atoiVal, atoiErr
+//@   bind call Parse: nextTime, parseErr
+//@   let strict = w.responseUnmarshallMode == v1alpha1.ResponseUnmarshallModeStrict
+//@   ensures [C19] called(Do) && doErr != nil ==> err != nil
+//@   ensures [C19] called(Do) && doErr == nil && httpResp.StatusCode == 429 ==> isTMR(err) && !called(UnmarshalStrict)
+//@   ensures [C19] called(Do) && doErr == nil && httpResp.StatusCode == 429 && parseErr != nil ==> typeis(err, *TooManyRequestError) && unbox(err, *TooManyRequestError).AfterSecond == atoiVal
+//@   ensures [C19] err == nil ==> called(Do) && doErr == nil && httpResp.StatusCode != 429 && readErr == nil && supported && adjErr == nil && decErr == nil
+//@   ensures [C19] err == nil && strict ==> len(strictErrs) == 0
+//@   ensures [C19] called(Do) && doErr == nil && httpResp.StatusCode != 429 && readErr == nil && supported && adjErr == nil && decErr == nil && (!strict || len(strictErrs) == 0) ==> err == nil
+//@   at UnmarshalStrict(data, into) [C19,C13]: supported && adjErr == nil && data == adjusted && into == webhookResponse
+
+//@ func webhookTimeout(webhook) (d, err)
+//@   requires webhook != nil
+//@   safety C13,C20
+//@   ensures [C19,C20] webhook.Timeout == nil ==> err == nil
+//@   ensures [C19,C20] webhook.Timeout != nil && webhook.Timeout.Duration <= 0 ==> err != nil
+//@   ensures [C19,C20] webhook.Timeout != nil && webhook.Timeout.Duration > 0 ==> err == nil && d == webhook.Timeout.Duration
+
+//@ func isEtagEnabled(webhook) (r)
+//@   requires webhook != nil
+//@   safety C13,C20
+//@   ensures [C19] r == (webhook.Etag != nil && webhook.Etag.Enabled != nil && *webhook.Etag.Enabled)
+
+//@ func webhookURL(webhook) (u, err)
+//@   requires webhook != nil
+//@   safety C13,C20
+//@   ensures [C20] webhook.URL != nil ==> err == nil && u == *webhook.URL
+//@   ensures [C20] webhook.URL == nil && (webhook.Service == nil || webhook.Path == nil) ==> err != nil
+
+//@ func NewWebhookExecutor(webhook, controllerName, controllerType, hookType) (ex, err)
+//@   safety C13,C20
+//@   ensures [C20] webhook == nil ==> ex == nil && err == nil
